@@ -136,6 +136,13 @@
 (declare-fun gs.concat (Str Str) Str)
 (declare-fun gs.ofbytes ((Array Int Int) Int Int) Str)
 (declare-fun val.ifaceeq (Val Val) Bool)
+; heights of finite trees (termination measures of the recursions over the AST and over values; C09)
+(declare-fun nheight (Iface) Int)
+(declare-fun vheight (Val) Int)
+; @section heights nheight vheight
+(assert (forall ((n Iface)) (! (>= (nheight n) 0) :pattern ((nheight n)))))
+(assert (forall ((v Val)) (! (>= (vheight v) 0) :pattern ((vheight v)))))
+; @section core
 ; @section ifaceeq val.ifaceeq
 (assert (forall ((a Val)) (! (=> (not ((_ is VArr) a)) (val.ifaceeq a a)) :pattern ((val.ifaceeq a a)))))
 ; @section core
